@@ -37,6 +37,7 @@ PROPS = {
             {"run": "^TestC14GapMatrix", "checks": {"quick": 6, "thorough": 60}, "shards": {"quick": 2, "thorough": 12}},
             {"run": "^TestC14ConcurrentWriters", "checks": {"quick": 10, "thorough": 150}, "shards": {"quick": 1, "thorough": 4}},
             {"run": "^TestC14RateLimit", "checks": {"quick": 30, "thorough": 400}, "shards": {"quick": 1, "thorough": 4}},
+            {"run": "^TestC14LongHistory", "checks": {"quick": 4, "thorough": 40}, "shards": {"quick": 3, "thorough": 8}, "shrink_s": 30},
         ],
         "assumptions": [
             "record alignment is asserted only where the harness owns the schedule (burst injected in a gap, complete before the next file is read); under true concurrency only prefix + dependency closure over complete records",
@@ -68,7 +69,7 @@ PROPS = {
             {"run": "^TestC12Inputs", "checks": {"quick": 4, "thorough": 120}, "shards": {"quick": 3, "thorough": 16}, "shrink_s": 45,
              "cover_pkg": "github.com/glowlabs-org/gca-backend/server", "cover_tiers": ["thorough"]},
             {"run": "^TestC12CatchUpTraffic", "checks": {"quick": 150, "thorough": 3000}, "shards": {"quick": 1, "thorough": 4}},
-            {"run": "^TestC12Shutdown", "checks": {"quick": 3, "thorough": 30}, "shards": {"quick": 2, "thorough": 8}, "shrink_s": 45},
+            {"run": "^TestC12Shutdown", "checks": {"quick": 4, "thorough": 30}, "shards": {"quick": 2, "thorough": 8}, "shrink_s": 45},
         ],
         "assumptions": [
             "handler panics are observed through a verif-tagged wrapper around the HTTP mux that records and re-raises them; goroutine panics through deferred witnesses at the goroutine entry points",
@@ -267,7 +268,7 @@ META = {
     },
     "C14": {
         "technique": "schedule-owning injection of write bursts into every gap of the archive loop (complete gap x burst matrix on generated states), concurrent writers, and rate-limit schedules judged by interval arithmetic",
-        "text": "For generated server states the archive is requested and a write burst (new device + first report, registration + first device, rotation, conflicting authorization, report burst) is executed from the verif point before each file is added; the zip is parsed by the harness and checked for record-aligned prefixes, dependency closure under the archived keys, absence of private key material and an exact server.pubkey. Archives taken under truly concurrent writers are checked without the alignment clause. Request bursts are judged against the configured limit with the C19 interval oracle. Exploration only.",
+        "text": "For generated server states the archive is requested and a write burst (new device + first report, registration + first device, rotation, conflicting authorization, report burst) is executed from the verif point before each file is added; the zip is parsed by the harness and checked for record-aligned prefixes, dependency closure under the archived keys, absence of private key material and an exact server.pubkey. Archives taken under truly concurrent writers are checked without the alignment clause. Request bursts are judged against the configured limit with the C19 interval oracle. A further generated check (TestC14LongHistory) builds long histories - statistics, authorization and report files beyond one megabyte - and applies the same oracle to an archive taken while a burst lands in a drawn gap. Exploration only.",
         "note": "Whether a read(2) racing an O_APPEND write(2) can observe part of it is a kernel property and is not judged.",
     },
     "C13": {
